@@ -471,3 +471,23 @@ Theorem Multi_handover_step_partial : forall (A : Type) (ops : app_ops A), apps_
                          (encode_token (ts fb) (ts fa)) fb f0 (mkPhyOut None []) []) (st_log stb').
 Proof. exact handover_step_partial. Qed.
 Print Assumptions Multi_handover_step_partial.
+
+(* non-vacuity of Multi_handover_step_partial: the two-station example run of Model/Multi.v (ideal medium,
+   500 kbit/s) is, after 163 polls, in a state satisfying every hypothesis - station 1 (index 0) handed the
+   token telegram to its PHY at t0 = 6440 us; index 1 polled at tp = 6480 and found the first byte [220];
+   index 0 polled at 6520; at t1 = 6560 the telegram is complete. *)
+Example Multi_handover_hypotheses_satisfiable :
+  exists sta stb h0 h1,
+    let fa := st_f sta in let fb := st_f stb in
+    nth_error (sys_st ex2_s163) 0 = Some sta /\ nth_error (sys_st ex2_s163) 1 = Some stb /\
+    sys_hist ex2_s163 = h0 ++ mkH 0 6440 (Some (encode_token (ts fb) (ts fa))) :: h1 /\
+    Forall (fun x => h_tx x = None) h1 /\
+    kind_of (f_state fa) = KCheckTokenPass /\ Rep (length (st_apps sta)) fa /\
+    Rep (length (st_apps stb)) fb /\ f_conn fb = ConnOnline /\ f_state fb = ActiveIdle None None 0 /\
+    r_ps (f_ring fb) = ts fa /\ ts fa <> ts fb /\
+    st_buf stb = firstn (bytes_by 500000 6440 3 6480) (encode_token (ts fb) (ts fa)) /\ st_buf stb = [220] /\
+    (f_pending fb < 3)%nat /\ (forall l, f_lba fb = Some l -> l < 6560) /\ time_ok 6560 /\
+    last_poll (sys_hist ex2_s163) 1 = Some 6480 /\ bytes_by 500000 6440 3 6560 = 3%nat /\
+    (forall x w', In x h0 -> h_who x <> 1%nat -> h_tx x = Some w' -> bytes_by 500000 (h_now x) (length w') 6480 = length w') /\
+    (forall x w', In x h0 -> h_who x = 1%nat -> h_tx x = Some w' -> tx_end 500000 (h_now x) (length w') <= 6560).
+Proof. exact ex2_handover_hypotheses. Qed.
